@@ -68,7 +68,7 @@ func Run(r *core.Run) {
 	listLen := core.Pick(r, 4, 5)
 	r.Rule = fmt.Sprintf("documents: single keys over 6 types x all 32 purpose subsets x {JWK, base58} (valid combinations per the constraint predicate) + 2-3 key combinations, 0-2 services with extra members, 0-2 also-known-as; "+
 		"x 16 option combinations (+ custom / incomplete key-context map) x both transformers; histories on one shared transformer: all sequences (a,b,a) (thorough: all (a,b,c)) over documents that reuse the key id / service id with other material, types and DIDs; metadata: commitments {empty,set} x anchor origin {nil,string,object} x deactivated x created/updated/version {0,set} x published x canonical/equivalent ids; "+
-		"operation lists: all sequences of length <= %d over (time, number) in {0,1,2}^2 x 2 canonical references; distinct = distinct (document, options) / model / list cases; non-trivial = all", listLen)
+		"operation lists: all sequences of length <= %d over (time, number) in {0,1,2}^2 x 2 canonical references, and lists of 13-64 (thorough: -257) operations in every rotation, reversed, interleaved and organ-pipe order with time blocks of 1, 2, 3, n/2, n; distinct = distinct (document, options) / model / list cases; non-trivial = all", listLen)
 	r.Assumptions = []string{"reference result ref/resolution written from the statement (DID core vocabulary)", "operations with equal (time, number) may come in any order (compared as multisets)",
 		"'updated time without version id' and 'created time while unpublished' are observed, not judged"}
 	const did = "did:sidetree:EiSuffix"
@@ -422,6 +422,75 @@ func Run(r *core.Run) {
 	})
 	_ = rec
 	_ = lists
+	// long lists: library sorts change their algorithm with the length (Go's sort.Slice: insertion sort up to 12 elements, pdqsort
+	// above; the latter is not stable), so lists of 13-100 operations are presented in every rotation of the anchoring order, reversed,
+	// interleaved and organ-pipe, with blocks of 1, 2, 3, n/2 and n operations that share a transaction time
+	{
+		type longCase struct {
+			n, block int
+			order    string
+			perm     []int
+		}
+		var longs []longCase
+		lengths := []int{13, 14, 16, 20, 33, 64}
+		if r.Thorough() {
+			lengths = append(lengths, 15, 17, 25, 32, 50, 100, 257)
+		}
+		for _, n := range lengths {
+			for _, block := range []int{1, 2, 3, n / 2, n} {
+				id := make([]int, n)
+				for i := range id {
+					id[i] = i
+				}
+				add := func(order string, perm []int) {
+					longs = append(longs, longCase{n, block, order, append([]int{}, perm...)})
+				}
+				for k := 0; k < n; k++ {
+					add(fmt.Sprintf("rotated-%d", k), append(append([]int{}, id[k:]...), id[:k]...))
+				}
+				rev := make([]int, n)
+				for i := range rev {
+					rev[i] = n - 1 - i
+				}
+				add("reversed", rev)
+				var inter, pipe []int
+				for i := 0; i < n; i += 2 {
+					inter = append(inter, i)
+				}
+				for i := 1; i < n; i += 2 {
+					inter = append(inter, i)
+				}
+				add("evens-then-odds", inter)
+				for i := 0; i < n; i += 2 {
+					pipe = append(pipe, i)
+				}
+				for i := n - 1 - n%2; i >= 1; i -= 2 {
+					pipe = append(pipe, i)
+				}
+				add("organ-pipe", pipe)
+			}
+		}
+		tr := didtransformer.New(didtransformer.WithIncludePublishedOperations(true), didtransformer.WithIncludeUnpublishedOperations(true))
+		inf := protocol.TransformationInfo{"id": did, "published": true}
+		core.Parallel(len(longs), func(li int) {
+			lc := longs[li]
+			at := func(i int) (uint64, uint64, string) {
+				k := lc.perm[i] // position in anchoring order
+				return uint64(100 + k/lc.block), uint64(k % lc.block), fmt.Sprintf("ref-%d", k)
+			}
+			id := fmt.Sprintf("oplist-long/n=%d/block=%d/%s", lc.n, lc.block, lc.order)
+			r.Case(id, func() *core.Fail {
+				g := judgeList(tr, inf, syms2ops(lc.perm, at))
+				if g != nil {
+					g.Key = fmt.Sprintf("oplist-long/n=%d/block=%d", lc.n, lc.block)
+				}
+				return g
+			})
+		})
+		r.Eval(int64(len(longs)))
+		r.AddDistinct(int64(len(longs)))
+		r.Extra["long_operation_lists"] = len(longs)
+	}
 	r.Sample(M{"operation_list": []M{{"time": 1, "number": 2, "ref": "refA"}, {"time": 2, "number": 0, "ref": "refB"}, {"time": 1, "number": 2, "ref": "refB"}}})
 }
 
